@@ -250,6 +250,12 @@ func vC10RunLookupCap(t *testing.T, c *vh.Case, sc vC10Scenario) {
 					resp.CloserPeers = append(strangers(nBig), resp.CloserPeers...)
 				case "huge-known":
 					resp.CloserPeers = known(nBig)
+					if idx%3 == 0 {
+						// ... with the requester itself listed many times behind the oversized list
+						for j := 0; j < 1+idx%50; j++ {
+							resp.CloserPeers = append(resp.CloserPeers, self)
+						}
+					}
 				case "huge-dup":
 					one := known(1)[0]
 					resp.CloserPeers = nil
